@@ -96,7 +96,12 @@ void fp2_inv_cyc(fp2_t c, const fp2_t a) {
 
 void fp2_inv_sim(fp2_t *c, const fp2_t *a, int n) {
 	int i;
-	fp2_t u, *t = RLC_ALLOCA(fp2_t, n);
+	fp2_t u, *t;
+
+	if (n <= 0) {
+		return;
+	}
+	t = RLC_ALLOCA(fp2_t, n);
 
 	for (i = 0; i < n; i++) {
 		fp2_null(t[i]);
@@ -222,7 +227,12 @@ void fp3_inv(fp3_t c, const fp3_t a) {
 
 void fp3_inv_sim(fp3_t * c, const fp3_t * a, int n) {
 	int i;
-	fp3_t u, *t = RLC_ALLOCA(fp3_t, n);
+	fp3_t u, *t;
+
+	if (n <= 0) {
+		return;
+	}
+	t = RLC_ALLOCA(fp3_t, n);
 
 	for (i = 0; i < n; i++) {
 		fp3_null(t[i]);
@@ -298,7 +308,12 @@ void fp4_inv(fp4_t c, const fp4_t a) {
 
 void fp4_inv_sim(fp4_t * c, const fp4_t * a, int n) {
 	int i;
-	fp4_t u, *t = RLC_ALLOCA(fp4_t, n);
+	fp4_t u, *t;
+
+	if (n <= 0) {
+		return;
+	}
+	t = RLC_ALLOCA(fp4_t, n);
 
 	for (i = 0; i < n; i++) {
 		fp4_null(t[i]);
@@ -433,7 +448,12 @@ void fp8_inv(fp8_t c, const fp8_t a) {
 
 void fp8_inv_sim(fp8_t *c, const fp8_t *a, int n) {
 	int i;
-	fp8_t u, *t = RLC_ALLOCA(fp8_t, n);
+	fp8_t u, *t;
+
+	if (n <= 0) {
+		return;
+	}
+	t = RLC_ALLOCA(fp8_t, n);
 
 	for (i = 0; i < n; i++) {
 		fp8_null(t[i]);
@@ -535,7 +555,12 @@ void fp9_inv(fp9_t c, const fp9_t a) {
 
 void fp9_inv_sim(fp9_t * c, const fp9_t * a, int n) {
 	int i;
-	fp9_t u, *t = RLC_ALLOCA(fp9_t, n);
+	fp9_t u, *t;
+
+	if (n <= 0) {
+		return;
+	}
+	t = RLC_ALLOCA(fp9_t, n);
 
 	for (i = 0; i < n; i++) {
 		fp9_null(t[i]);
@@ -644,7 +669,12 @@ void fp16_inv(fp16_t c, const fp16_t a) {
 
 void fp16_inv_sim(fp16_t *c, const fp16_t *a, int n) {
 	int i;
-	fp16_t u, *t = RLC_ALLOCA(fp16_t, n);
+	fp16_t u, *t;
+
+	if (n <= 0) {
+		return;
+	}
+	t = RLC_ALLOCA(fp16_t, n);
 
 	for (i = 0; i < n; i++) {
 		fp16_null(t[i]);
